@@ -302,4 +302,23 @@ PROPS = {
                               {"test": "^TestC14Live$", "shards": 1, "timeout": 900, "group": 1, "weight": 16},
                               {"test": "^TestC14Live$", "shards": 1, "timeout": 900, "group": 2, "weight": 16, "race": True, "env": {"VERIF_LIVE_BUDGET": "120"}}]},
     },
+    "C19": {
+        "title": "Message board and agreement are served whole and lose no post",
+        "level": "exploration",
+        "rule": "TestC19 (bubble): rapid-generated board size and agreement size from {0,100,513,5000,33000,60000} bytes, 2-7 clients, 1-4 rounds in "
+                "which 1-6 get-messages requests and 0-4 posts (1-2000 bytes incl. newlines; total kept within the 64 KiB field) are issued at "
+                "the same instant, then 2-8 clients logging in at the same instant (both login flows); TestC19Live: the same with real goroutines, "
+                "the production outbox pump and GOMAXPROCS in {4,8,16}, plus a poster-side check at the instant the acknowledgement arrives. "
+                "Oracle: MessageBoard.txt == every acknowledged post exactly once, newest first, in the protocol's post format (date by pattern), "
+                "followed by the initial text; every get-messages reply is the complete board at some instant of its round (a suffix of the final "
+                "board starting at a post boundary, not older than posts acknowledged before); every post announced (102) exactly once to every "
+                "connected client; every 109 carries exactly the agreement; non-trivial = two reads overlap on a board > 512 bytes, or a read "
+                "overlaps a post, or simultaneous logins against an agreement > 512 bytes; distinct = hash(sizes, rounds, logins)",
+        "assumptions": ["goroutine schedules are sampled (bubble: Go scheduler inside the bubble; live: real scheduler)", "board text uses CR line ends (the store converts LF on load)"],
+        "quick": {"runs": [{"test": "^TestC19$", "shards": 12, "checks": 60, "timeout": 900},
+                           {"test": "^TestC19Live$", "shards": 2, "timeout": 600, "weight": 2}]},
+        "thorough": {"runs": [{"test": "^TestC19$", "shards": 12, "checks": 2500, "timeout": 3400, "group": 0},
+                              {"test": "^TestC19Live$", "shards": 1, "timeout": 900, "group": 1, "weight": 16},
+                              {"test": "^TestC19Live$", "shards": 1, "timeout": 900, "group": 2, "weight": 16, "race": True, "env": {"VERIF_LIVE_BUDGET": "120"}}]},
+    },
 }
